@@ -41,6 +41,13 @@ pub trait Hooks: Send + Sync {
     /// The calling thread is about to perform a map operation that blocks while
     /// `is_locked()` returns true.
     fn map_probe(&self, is_locked: &dyn Fn() -> bool);
+    /// A switch point reached while the calling thread holds the write lock of a map
+    /// shard (inside an insert). Optional: the default does nothing, and then no thread is
+    /// ever parked while it holds such a lock.
+    fn sp_locked(&self, _site: &'static str) {}
+    /// The calling thread is about to perform a map operation that may touch any shard
+    /// (an iterator step): it blocks while some thread is parked in `sp_locked`.
+    fn map_probe_any(&self) {}
     /// A cooperative fault point: return true to force the rare-but-legal outcome.
     fn buggify(&self, site: &'static str) -> bool;
     /// A reachability / cause marker. `arg` is site specific (usually a key hash).
@@ -72,6 +79,20 @@ pub(crate) fn sp(site: &'static str) {
 pub(crate) fn map_probe(is_locked: &dyn Fn() -> bool) {
     if let Some(h) = current() {
         h.map_probe(is_locked);
+    }
+}
+
+#[inline]
+pub(crate) fn sp_locked(site: &'static str) {
+    if let Some(h) = current() {
+        h.sp_locked(site);
+    }
+}
+
+#[inline]
+pub(crate) fn map_probe_any() {
+    if let Some(h) = current() {
+        h.map_probe_any();
     }
 }
 
